@@ -5,6 +5,7 @@ correspondence: the bytes auditok writes are compared with the model's
 wav_encode, files are read back eagerly and lazily, numpy export is compared
 element-wise with the model's to_array."""
 import os
+import sys
 import shutil
 import warnings
 from pathlib import Path
